@@ -615,7 +615,9 @@ def url_rule(A, rule):
                    "urllib.parse.urlparse(url).scheme in ['https', 'wss']": Const(secure)}
 
             def assume(e, asm=asm):
-                if isinstance(e, (ast.Name, ast.Attribute, ast.Call, ast.Compare)):
+                if isinstance(e, ast.Compare):
+                    return asm.get(atom(e, True)[0])    # list / tuple displays agree
+                if isinstance(e, (ast.Name, ast.Attribute, ast.Call)):
                     return asm.get(txt(e))
                 return None
             ps = [p for p in A.paths(A.enum(assume=assume, follow_handlers=False), fi, cls)
@@ -762,8 +764,9 @@ def decode_guard_rule(A, cf, rule):
                 continue
             for c in ast.walk(a):
                 if isinstance(c, ast.Call) and isinstance(c.func, ast.Attribute) and \
-                        c.func.attr == 'decode' and ('.content' in ast.unparse(c.func.value) or
-                                                     '.read()' in ast.unparse(c.func.value)):
+                        c.func.attr == 'decode' and (not c.args or (
+                            isinstance(c.args[0], ast.Constant) and
+                            str(c.args[0].value).lower().replace('_', '-') == 'utf-8')):
                     n += 1
                     ok = False
                     for succ, lab in node.succ:
